@@ -20,17 +20,35 @@ impl Real {
     }
 }
 
+/// `run_vm` with the node tags of the returned pairs (pre-order) appended as one synthetic entry,
+/// for the checks that compare two runs of the real engine with each other (C12, C15).
+pub fn run_vm_tagged(vm: &Vm, rule: &str, input: &str) -> Real {
+    run_vm_impl(vm, rule, input, true)
+}
+
 pub fn run_vm(vm: &Vm, rule: &str, input: &str) -> Real {
+    run_vm_impl(vm, rule, input, false)
+}
+
+fn run_vm_impl(vm: &Vm, rule: &str, input: &str, tagged: bool) -> Real {
     let r = vcore::catch(|| match vm.parse(rule, input) {
-        Ok(p) => Real::Ok {
-            toks: p
+        Ok(p) => {
+            let mut toks: Vec<(bool, String, usize)> = p
+                .clone()
                 .tokens()
                 .map(|t| match t {
                     pest::Token::Start { rule, pos } => (true, rule.to_string(), pos.pos()),
                     pest::Token::End { rule, pos } => (false, rule.to_string(), pos.pos()),
                 })
-                .collect(),
-        },
+                .collect();
+            if tagged && cfg!(feature = "extras") {
+                let tags: Vec<Option<String>> = p.flatten().map(|q| q.as_node_tag().map(|t| t.to_string())).collect();
+                if tags.iter().any(|t| t.is_some()) {
+                    toks.push((false, format!("#tags{tags:?}"), usize::MAX));
+                }
+            }
+            Real::Ok { toks }
+        }
         Err(e) => {
             let pos = match e.location {
                 InputLocation::Pos(p) => p,
